@@ -127,8 +127,8 @@ def run_case(case: dict) -> dict:
         excl = set(case.get("exclude") or [])
         tw = Twin([wa, wb])
         memory = fam in ("c03", "c04", "c05")
-        if "crosstalk" in excl and (has_known_structure(wa, tw.obs[0], memory)
-                                    or has_known_structure(wb, tw.obs[1], memory)):
+        if "crosstalk" in excl and (has_known_structure(wa, tw.obs[0], memory, stmts, case["inputs"])
+                                    or has_known_structure(wb, tw.obs[1], memory, stmts, case["inputs"])):
             res["status"] = "excluded"
             res["excluded_by"] = "crosstalk"
             return res
